@@ -729,3 +729,14 @@ func (r *Run) Regress(judge func(raw json.RawMessage, w *W) error) {
 		})
 	})
 }
+
+// Panics runs f and reports whether it panicked, without capturing a stack (for panics that are part of a contract).
+func Panics(f func()) (panicked bool, value any) {
+	defer func() {
+		if p := recover(); p != nil {
+			panicked, value = true, p
+		}
+	}()
+	f()
+	return false, nil
+}
